@@ -216,6 +216,7 @@ func init() {
 	Properties["C08"] = &PropertySpec{
 		Modules: bt,
 		Rules: []Rule{
+			R75(),
 			Only(R55(), `^a/`, `^floor`),
 			Only(R48(), `LeveldbDiskStorage`),
 			Only(R44(), `server\.tables`),
@@ -277,6 +278,7 @@ func init() {
 	Properties["C12"] = &PropertySpec{
 		Modules: bt,
 		Rules: []Rule{
+			R76(),
 			R36(),
 			Only(R58(), `^a/`),
 			R40(),
